@@ -351,6 +351,28 @@ def standin_predicates(tier, seed):
                 tot = tot + c * m
             if not np.allclose(tot, u, atol=1e-7):
                 bad("pauli_expansion does not re-sum to the matrix", gate=g)
+    # powers of every library gate that defines them: integer powers are matrix powers, the inverse undoes, a half power squares back
+    more = [cirq.GlobalPhaseGate(-1), cirq.GlobalPhaseGate(np.float64(-1.0)), cirq.GlobalPhaseGate(np.complex64(1j)), cirq.GlobalPhaseGate(-1.0), cirq.PhaseGradientGate(num_qubits=2, exponent=1),
+            cirq.PhaseGradientGate(num_qubits=3, exponent=0.5), cirq.QuantumFourierTransformGate(2), cirq.DiagonalGate([0.1, -2.0]), cirq.TwoQubitDiagonalGate([0.1, 0.2, 3.0, -1.0])]
+    for g in lib + more:
+        try:
+            u = cirq.unitary(g)
+        except Exception:
+            continue
+        for t_ in (-1, 2, 3, 0.5, -2):
+            gp = cirq.pow(g, t_, None)
+            if gp is None or not cirq.has_unitary(gp):
+                continue
+            cases += 1
+            up = cirq.unitary(gp)
+            if t_ == 0.5:
+                ok = np.allclose(up @ up, u, atol=1e-7)
+            elif t_ < 0:
+                ok = np.allclose(np.linalg.matrix_power(up, 1) @ np.linalg.matrix_power(u, -t_), np.eye(len(u)), atol=1e-7)
+            else:
+                ok = np.allclose(up, np.linalg.matrix_power(u, t_), atol=1e-7)
+            if not ok:
+                bad(f"g**{t_} is not the {t_}-th power of the gate's matrix", gate=g)
     # commutes => matrices commute (same qubits)
     small = [g for g in lib if cirq.num_qubits(g) <= 2 and all(d == 2 for d in cirq.qid_shape(g))]
     for g1, g2 in itertools.product(small, repeat=2):
